@@ -58,7 +58,7 @@ var canaries = map[string][]canary{}
 var propertyCanaries = map[string][]string{
 	"C01": {"STRIDE.stepbound", "STRIDE.flatfill", "ALPHA.noread", "STRIDE.fullrange", "STRIDE.unitidx", "FLAG.unitdiag", "BETA.noread", "BETA.quickret", "BETA.scaleguard", "FLAG.neginc", "STRIDE.index", "STRIDE.len", "STRIDE.start", "STRIDE.rowoffset", "STRIDE.extent", "FLAG.trans", "TWIN.generated", "ASM.units", "ASM.lost"},
 	"C02": {"STRIDE.argmaxbase", "WORK.init", "FLAG.cholorder", "ARGS.callee", "FLAG.unset", "FLAG.unitdiag", "WORKSIZE.fallback", "OKFLOW.loopstatus", "FACTKIND.pair", "ARGS.order", "ARGS.lencheck", "ARGS.query", "LOOPIDX.unused", "OKFLOW.report", "STRIDE.vecinc", "WORKSIZE.min", "WORKSIZE.querylen"},
-	"C03": {"WORK.init", "FLAG.cholorder", "ARGS.callee", "FLAG.unset", "FLAG.unitdiag", "WORKSIZE.fallback", "GUARD.operand", "FLAG.uplomap", "STRIDE.veclda", "FACTKIND.pair", "LOOPIDX.origin", "ARGS.order", "ARGS.lencheck", "ARGS.query", "LOOPIDX.unused", "OKFLOW.report", "STRIDE.workld", "STRIDE.worknext", "WORKSIZE.min"},
+	"C03": {"LOOPFLAG.stale", "WORK.init", "FLAG.cholorder", "ARGS.callee", "FLAG.unset", "FLAG.unitdiag", "WORKSIZE.fallback", "GUARD.operand", "FLAG.uplomap", "STRIDE.veclda", "FACTKIND.pair", "LOOPIDX.origin", "ARGS.order", "ARGS.lencheck", "ARGS.query", "LOOPIDX.unused", "OKFLOW.report", "STRIDE.workld", "STRIDE.worknext", "WORKSIZE.min"},
 	"C04": {"STRIDE.stepbound", "BAND.rowcol", "MAT.access", "MAT.selfguard", "ZEROED.paths", "SWAP.cond", "STRIDE.contig", "TWIN.bounds", "NILRECV"},
 	"C05": {"MAT.doublepass", "OVERLAP.lattice", "MAT.guardorder", "FACT.alias", "OVERLAP.extent", "OVERLAP.guard", "MODSET.mat", "OVERLAP.symmetric", "TWIN.shadow"},
 	"C06": {"FACT.alias", "FACT.failstate", "INIT.state", "ERR.overwrite", "ERR.swallow", "FACT.deadloop", "FACT.reuse", "FLAG.unset", "OKFLOW.condpath", "FACT.condafter", "FACTKIND.pair", "OKFLOW.use", "OKFLOW.cond", "OKFLOW.report", "FACT.normorder", "FACT.state", "FACT.condunit", "NILRECV"},
@@ -117,6 +117,7 @@ func init() {
 		{"GRAPHINV.rangefirst", "graph/simple/dense_directed_matrix.go", "\tg.mat.Set(int(fid), int(tid), weight)\n\tif g.nodes != nil {\n\t\tg.nodes[fid] = from\n\t\tg.nodes[tid] = to\n\t}\n", "\tif g.nodes != nil {\n\t\tg.nodes[fid] = from\n\t\tg.nodes[tid] = to\n\t}\n\tg.mat.Set(int(fid), int(tid), weight)\n", func() *core.Result { return graphinv.RunRangeFirst(def) }},
 		{"ITER.remaining", "graph/iterator/nodes.go", "\treturn len(n.nodes[n.idx+1:])", "\treturn len(n.nodes[n.idx:])", func() *core.Result { return graphinv.RunIterFamily(def) }},
 		{"STRIDE.argmaxbase", "lapack/gonum/dgetf2.go", "jp := j + bi.Idamax(m-j, a[j*lda+j:], lda)", "jp := j + bi.Idamax(m-j-1, a[(j+1)*lda+j:], lda)", func() *core.Result { return stride.RunArgmaxBase(def, core.Pkgs("./lapack/gonum")) }},
+		{"LOOPFLAG.stale", "lapack/gonum/dsteqr.go", "\t\tvar iscale scaletype\n\x00\tfor {\n\t\tif l1 > n-1 {", "\x00\tvar iscale scaletype\n\tfor {\n\t\tif l1 > n-1 {", func() *core.Result { return loopidx.RunStaleFlag(def, core.Pkgs("./lapack/gonum")) }},
 		{"ARGS.workquery", "lapack/gonum/dgeqrf.go", "case len(work) < max(1, lwork):", "case len(work) < lwork:", func() *core.Result { return flagx.RunWorkQuery(def, core.Pkgs("./lapack/gonum")) }},
 		{"ARGS.callee", "lapack/gonum/dsytrd.go", "case len(d) < n:", "case len(d) < n-1:", func() *core.Result { return worksize.RunCallee(def, core.Pkgs("./lapack/gonum")) }},
 		{"GRAPHINV.together", "graph/simple/weighted_undirected.go", "\tif fm, ok := g.edges[fid]; ok {\n\t\tfm[tid] = e\n\t} else {", "\tif fm, ok := g.edges[fid]; ok {\n\t\t_, exists := fm[tid]\n\t\tfm[tid] = e\n\t\tif exists {\n\t\t\treturn\n\t\t}\n\t} else {", func() *core.Result { return graphinv.Run(def) }},
